@@ -16,7 +16,9 @@ Definition lowerS : list N -> list N := to_lower.
    opos / epos: byte offset of the name segment of the first reference of Objects[i] / of the first
    referenced edge of Edges[i] (None: no reference, a reference inside vars, or inside an imported file) *)
 Inductive board :=
-| Board (store : list obj) (objs : list nat) (edges : list edge) (opos epos : list (option N)).
+| Board (store : list obj) (objs : list nat) (edges : list edge) (tabs : list nat)
+        (opos epos : list (option N)).
+    (* tabs: the numbers of the objects whose Shape.Value is class or sql_table *)
 
 (* one real call of Graph.SortObjectsByAST / SortEdgesByAST: positions of the input list, and the
    output as indices into the input *)
@@ -24,7 +26,7 @@ Inductive sortobs := SortObs (pre : list (option N)) (post : list nat).
 
 Inductive case :=
 | CStruct (root : board) (nested : list board) (sorts : list sortobs)
-          (replay : option (list op * (list obj * list nat * list edge)))
+          (replay : option (list op * (list obj * list nat * list edge * list nat)))
     (* all boards of one compiled program; the sort oracle's observations (permutation hypothesis); for
        programs of the core fragment the operation list read off the IR and the board d2compiler built
        before sorting *)
@@ -34,27 +36,27 @@ Inductive case :=
     (* order-of-first-appearance clause on the boards below the root *)
 
 Definition graph_of (b : board) : graph :=
-  match b with Board store objs edges _ _ => snapshot store objs edges end.
+  match b with Board store objs edges tabs _ _ => snapshot store objs edges tabs end.
 
 Definition wf_codes (g : graph) : list N :=
   flag (c_once g) 10 ++ flag (c_root g) 11 ++ flag (c_reach g) 12 ++ flag (c_board g) 13
   ++ flag (c_parent_arr g) 14 ++ flag (c_parent_map lowerS g) 15 ++ flag (c_children g) 16
-  ++ flag (c_edges g) 17.
+  ++ flag (c_edges g) 17 ++ flag (c_tables g) 22.
 
 Lemma wf_codes_nil g : wf_codes g = [] <-> wf_check lowerS g = true.
 Proof.
   unfold wf_codes, wf_check, flag.
   destruct (c_once g), (c_root g), (c_reach g), (c_board g), (c_parent_arr g),
-    (c_parent_map lowerS g), (c_children g), (c_edges g); simpl; split; intro H;
+    (c_parent_map lowerS g), (c_children g), (c_edges g), (c_tables g); simpl; split; intro H;
     try reflexivity; try discriminate.
 Qed.
 
 Definition aligned (b : board) : bool :=
-  match b with Board _ objs edges opos epos =>
+  match b with Board _ objs edges _ opos epos =>
     (length objs =? length opos) && (length edges =? length epos) end.
 
 Definition order_codes (b : board) (co ce : N) : list N :=
-  match b with Board _ _ _ opos epos => flag (ordered_b opos) co ++ flag (ordered_b epos) ce end.
+  match b with Board _ _ _ _ opos epos => flag (ordered_b opos) co ++ flag (ordered_b epos) ce end.
 
 (* oracle hypotheses on one observed sort call *)
 Definition sort_perm_b (s : sortobs) : bool :=
@@ -73,14 +75,39 @@ Definition obj_eqb (a b : obj) : bool :=
 Definition edge_eqb (a b : edge) : bool :=
   (e_src a =? e_src b) && (e_dst a =? e_dst b) && Bool.eqb (e_sa a) (e_sa b) && Bool.eqb (e_da a) (e_da b)
   && (e_idx a =? e_idx b).
+(* Graphs are compared up to the renumbering that sends the i-th listed object to i+1 (the model keeps
+   the numbers of the fields that compileClass / compileSQLTable removed from the object list; the
+   harness numbers the objects it can still reach): root and listed objects field by field, connections,
+   and the class / sql_table marks of root and listed objects. *)
+Fixpoint index_of (k : nat) (l : list nat) (i : nat) : option nat :=
+  match l with
+  | [] => None
+  | x :: tl => if x =? k then Some i else index_of k tl (S i)
+  end.
+
+Definition rn (objs : list nat) (k : nat) : nat :=
+  if k =? 0 then 0
+  else match index_of k objs 1 with Some i => i | None => S (length objs) + k end.
+
+Definition rn_obj (objs : list nat) (o : obj) : obj :=
+  mkObj (o_id o) (o_name o) (option_map (rn objs) (o_parent o)) (o_graph o)
+        (map (rn objs) (o_carr o)) (map (fun kv => (fst kv, rn objs (snd kv))) (o_cmap o)).
+
+Definition canon_objs (g : graph) : list (option obj) :=
+  map (fun k => option_map (rn_obj (g_objs g)) (g_st g k)) (0 :: g_objs g).
+
+Definition canon_edges (g : graph) : list edge :=
+  map (fun e => mkEdge (rn (g_objs g) (e_src e)) (rn (g_objs g) (e_dst e)) (e_sa e) (e_da e) (e_idx e)) (g_edges g).
+
+Definition canon_tabs (g : graph) : list nat :=
+  map (rn (g_objs g)) (filter (nodeb g) (g_tabs g)).
+
 Definition graph_eqb (g1 g2 : graph) : bool :=
-  (g_next g1 =? g_next g2) && list_eqb Nat.eqb (g_objs g1) (g_objs g2)
-  && list_eqb edge_eqb (g_edges g1) (g_edges g2)
-  && forallb (fun k => match g_st g1 k, g_st g2 k with
-                       | Some a, Some b => obj_eqb a b
-                       | None, None => true
-                       | _, _ => false
-                       end) (seq 0 (g_next g1)).
+  (length (g_objs g1) =? length (g_objs g2))
+  && list_eqb (opt_eqb obj_eqb) (canon_objs g1) (canon_objs g2)
+  && list_eqb edge_eqb (canon_edges g1) (canon_edges g2)
+  && forallb (fun k => memb k (canon_tabs g2)) (canon_tabs g1)
+  && forallb (fun k => memb k (canon_tabs g1)) (canon_tabs g2).
 
 Definition check_case (c : case) : list N :=
   match c with
@@ -90,8 +117,8 @@ Definition check_case (c : case) : list N :=
       ++ flag (forallb sort_perm_b sorts) 2
       ++ match replay with
          | None => []
-         | Some (ops, (store, objs, edges)) =>
-             flag (graph_eqb (run_ops fmtK lowerS ops) (snapshot store objs edges)) 1
+         | Some (ops, (store, objs, edges, tabs)) =>
+             flag (graph_eqb (run_ops fmtK lowerS ops) (snapshot store objs edges tabs)) 1
          end
   | CRootOrder root sorts =>
       flag (aligned root) 1 ++ order_codes root 18 19 ++ flag (forallb sort_ordered_b sorts) 3
